@@ -29,6 +29,7 @@ func vEngines() []drv.Runner {
 		drv.Wrap(drv.Engine[c02Case]{Property: "C02", Name: "c02", Gen: genC02, Run: runC02, BatchChecks: 20}),
 		drv.Wrap(drv.Engine[c10Case]{Property: "C10", Name: "c10", Gen: genC10, Run: runC10}),
 		drv.Wrap(drv.Engine[c09Case]{Property: "C09", Name: "c09", Gen: genC09, Run: runC09, BatchChecks: 100}),
+		drv.Wrap(drv.Engine[c20Case]{Property: "C20", Name: "c20", Gen: genC20, Run: runC20, BatchChecks: 100}),
 		drv.Wrap(drv.Engine[c04Case]{Property: "C04", Name: "c04", Gen: genC04, Run: runC04}),
 	}
 }
